@@ -645,7 +645,7 @@ class _Monitor:
         out, seen = [], set()
         for name, mod in list(sys.modules.items()):
             f = getattr(mod, "__file__", None)
-            if not f or not any(f.endswith(sfx) for sfx in files):
+            if not f or not any((sfx in f) if sfx.endswith("/") else f.endswith(sfx) for sfx in files):
                 continue
             for v in list(vars(mod).values()):
                 if isinstance(v, (types.FunctionType, type)) and getattr(v, "__module__", None) == mod.__name__:
@@ -924,45 +924,45 @@ def _make_namespace(s: Scheduler):
     return ns
 
 
-# modules whose `threading` (and clock) globals are redirected while a scheduler is active
-_PATCH_TARGETS = (
-    ("queue", "threading", "ns"),
-    ("queue", "time", "vtime"),
-    ("uberjob._execution.run_function_on_graph", "threading", "ns"),
-    ("uberjob.progress._simple_progress_observer", "threading", "ns"),
-    ("uberjob.progress._simple_progress_observer", "time", "time_module"),
-)
-
-
+# While a scheduler is active, every module of the library (and the standard `queue` module) sees the
+# cooperative primitives and the virtual clock, however it names them (`import threading` or
+# `from threading import Lock, Thread`; `import time` or `from time import time`): see vf/interpose.py.
 def _install(s: Scheduler):
-    import importlib
+    import time as _realtime
 
-    saved = []
-    for modname, attr, what in _PATCH_TARGETS:
-        try:
-            mod = importlib.import_module(modname)
-        except Exception:
-            continue
-        if not hasattr(mod, attr):
-            # the module no longer reaches its primitives through `<module>.threading` / `.time`: its threads
-            # would run outside the scheduler's control and every verdict would be meaningless
-            _uninstall(saved)
-            raise HarnessDrift(f"cannot interpose {attr!r} in {modname}: the module has no global of that name")
-        new = s.ns if what == "ns" else getattr(s.ns, what)
-        saved.append((mod, attr, getattr(mod, attr)))
-        setattr(mod, attr, new)
+    from . import interpose
+
+    ns = s.ns
+    pairs = [
+        (_rt, ns), (_realtime, ns.time_module),
+        (_rt.Lock, ns.Lock), (_thread.allocate_lock, ns.Lock), (_rt.RLock, ns.RLock), (_rt.Condition, ns.Condition),
+        (_rt.Event, ns.Event), (_rt.Semaphore, ns.Semaphore), (_rt.BoundedSemaphore, ns.BoundedSemaphore), (_rt.Thread, ns.Thread),
+        (_realtime.time, ns.vtime), (_realtime.monotonic, ns.vtime), (_realtime.perf_counter, ns.vtime),
+        (_realtime.sleep, ns.time_module.sleep),
+    ]
+    import queue as _q
+
+    try:
+        import uberjob  # noqa: F401 (its modules must be loaded before their globals are scanned)
+    except ImportError:
+        pass
+    saved = interpose.swap_globals(pairs, prefixes=("uberjob",), extra=("queue",))
+
+    if getattr(_q, "threading", None) is not ns:
+        interpose.restore(saved)
+        raise HarnessDrift("cannot interpose the threading primitives in the standard queue module")
     return saved
 
 
 def _uninstall(saved):
-    for mod, attr, old in reversed(saved):
-        setattr(mod, attr, old)
+    from . import interpose
+
+    interpose.restore(saved)
 
 
+# (an entry ending in "/" stands for every module in that directory: code may move between the modules of a package)
 ENGINE_FILES = (
-    "uberjob/_execution/run_function_on_graph.py",
-    "uberjob/_execution/scheduler.py",
-    "uberjob/_execution/run_physical.py",
+    "uberjob/_execution/",
     "/queue.py",
 )
 CACHING_FILES = ENGINE_FILES + (
